@@ -46,6 +46,16 @@ def wellformed(p): return len(p) % 2 == 0 and all(c in HEXCHARS for c in p)
 def impl(p):
     try: return "ok " + sign_packet_with_crc_key(p)
     except Exception: return "raised"
+def impl_other_spellings(p):
+    """the same call spelled with its keyword, from a dict, through functools.partial and on a str subclass: one answer"""
+    import functools
+    class S(str): pass
+    outs = []
+    for f in (lambda: sign_packet_with_crc_key(hex_packet=p), lambda: sign_packet_with_crc_key(**{"hex_packet": p}),
+              lambda: functools.partial(sign_packet_with_crc_key, hex_packet=p)(), lambda: sign_packet_with_crc_key(S(p))):
+        try: outs.append("ok " + str(f()))
+        except Exception: outs.append("raised")
+    return outs[0] if len(set(outs)) == 1 else "the spellings disagree: keyword %s, dict %s, partial %s, str subclass %s" % tuple(o[:40] for o in outs)
 def view(text): return text if text.startswith("ok ") else "raised"
 
 def cases(tier, rnd):
@@ -96,6 +106,13 @@ def run_cases(stream, cs, out):
     lib.differential(out, stream, cs, io, mo, ex, lambda p: "sign(%r)" % (p if len(p) <= 64 else p[:60] + "...[%d chars]" % len(p)),
                      nontrivial=lambda p: len(p) >= 2 and wellformed(p), sample=lambda p: p[:96], classify=cls)
 
+def spellings(out, rnd, cs):
+    sample = rnd.sample(cs, min(len(cs), 400))
+    io = [impl_other_spellings(p) for p in sample]
+    lib.differential(out, "keyword-and-other-spellings-of-the-call", sample, io, lib.run_model([lib.req("sign", p) for p in sample]), lib.run_model([lib.req("sign_spec", p) for p in sample]),
+                     lambda p: "sign(hex_packet=%r) and other spellings" % p[:60], nontrivial=lambda p: len(p) >= 2 and wellformed(p))
+
+
 def other_types_then_str(out, rnd):
     """valid hex handed over as bytes / bytearray / memoryview (the signer takes str: the call may raise), each followed by ordinary
     calls: what a refused or odd call leaves behind must not change the next signature"""
@@ -136,7 +153,9 @@ def threads(out, rnd, rounds):
 
 
 def run(tier, rnd, out):
-    run_cases("sign", cases(tier, rnd), out)
+    cs = cases(tier, rnd)
+    run_cases("sign", cs, out)
+    spellings(out, rnd, cs)
     other_types_then_str(out, rnd)
     threads(out, rnd, 20000 if tier == "quick" else 300000)
     # the model's table-driven CRC against binascii.crc_hqx directly (the external call the model replaces)
